@@ -198,11 +198,11 @@ class dns(packet_base):
                         len(self.authorities), len(self.additional))
 
         def makeName (labels, term):
-          o = '' #TODO: unicode
+          o = b'' #TODO: unicode
           for l in labels.split('.'):
-            o += chr(len(l))
-            o += l
-          if term: o += '\x00'
+            o += bytes([len(l)])
+            o += l.encode()
+          if term: o += b'\x00'
           return o
 
         name_map = {}
@@ -221,7 +221,7 @@ class dns(packet_base):
               pre += post[0]
               if len(post) == 1:
                 if len(pre) == 0:
-                  s += '\x00'
+                  s += b'\x00'
                 else:
                   name_map[name] = len(s)
                   s += makeName(pre, True)
@@ -375,19 +375,19 @@ class dns(packet_base):
     def _read_dns_name_from_index(cls, l, index, retlist):
       try:
         while True:
-            chunk_size = ord(l[index])
+            chunk_size = l[index]
 
             # check whether we have an internal pointer
             if (chunk_size & 0xc0) == 0xc0:
                 # pull out offset from last 14 bits
-                offset = ((ord(l[index]) & 0x3) << 8 ) | ord(l[index+1])
+                offset = ((l[index] & 0x3) << 8 ) | l[index+1]
                 cls._read_dns_name_from_index(l, offset, retlist)
                 index += 1
                 break
             if chunk_size == 0:
                 break
             index += 1
-            retlist.append(l[index : index + chunk_size])
+            retlist.append(l[index : index + chunk_size].decode())
             index += chunk_size
         return index
       except IndexError:
